@@ -336,7 +336,7 @@ func (h *harness) crossInvariants(ev int, mem memory.Memory, m *bytemem.Mem, tag
 		if lo > 0 {
 			lo--
 		}
-		if hi-lo < 255 {
+		if hi-lo < 255 && hi < ^uint64(0)-1 { // (the hull stays within the supported ranges)
 			hi++
 		}
 		if hi-lo <= 255 {
@@ -425,6 +425,16 @@ func (e *Engine) Execute(tr core.Trace, ctx *core.Ctx) {
 	}
 	if t.Hidden {
 		ctx.Probe("constants_with_hidden_capacity")
+	}
+	for _, v := range t.Views {
+		var ex expr.Expr = expr.Zero
+		if v.Of >= 0 && v.Of < len(t.Vals) && v.W >= 1 {
+			if c, isC := h.built[v.Of].(expr.Const); isC && int(c.Width()) > v.W {
+				ex = c.WithWidth(expr.Width(v.W))
+				ctx.Probe("value_is_a_narrowed_view_of_another")
+			}
+		}
+		h.built = append(h.built, ex)
 	}
 	switch t.Obj {
 	case "sparse":
